@@ -638,6 +638,8 @@ class PrecipitateModel (PrecipitateBase):
                 self.PSDXalpha[p] = np.zeros((self.PBM[p].bins + 1, self.numberOfElements))
                 self.PSDXbeta[p] = np.zeros((self.PBM[p].bins + 1, self.numberOfElements))
                 self.growth[p] = np.zeros(self.PBM[p].bins+1)
+                #Keep the recorded size distributions (if recording) aligned with the time steps
+                self.PBM[p].record(t)
                 continue
             self.PBM[p].UpdatePBMEuler(t, x[p])
             change, addedIndices = self.PBM[p].adjustSizeClassesEuler(all(self.growth[p] < 0))
